@@ -10,4 +10,13 @@ for h in harness/*/; do
   [ -f "$h/Cargo.lock" ] || cp /repo/Cargo.lock "$h/Cargo.lock"
   (cd "$h" && CARGO_TARGET_DIR=/verif/.cache/target-$n cargo build --offline 2>&1 | tail -3)
 done
+# prime the generator build cache (the scratch copy is removed again)
+python3 - <<'PY'
+import sys
+sys.path.insert(0, "/verif/lib")
+from genrun import *
+with GenScratch() as g:
+    rc, out, t = g.build()
+    print("generator build", rc, t)
+PY
 echo setup done
